@@ -126,6 +126,9 @@ type Checker struct {
 	Transitions int64
 	Traces      int64
 	seenNT      map[string]bool
+	triage      map[string]int
+	triageEx    map[string]string
+	maxPrint    int
 	replayDir   string
 }
 
@@ -140,6 +143,10 @@ func NewChecker(prop, tier, level string) *Checker {
 	}
 	c.kf = kf
 	c.replayDir = filepath.Join(VerifDir(), "replays", prop)
+	c.maxPrint = 25
+	if os.Getenv("VERIF_TRIAGE") != "" {
+		c.triage, c.triageEx, c.maxPrint = map[string]int{}, map[string]string{}, 0
+	}
 	return c
 }
 
@@ -219,7 +226,20 @@ func (c *Checker) Record(info CaseInfo, kind string, v *Violation) {
 		}
 	}
 	c.newViol++
-	if c.printed < 25 {
+	if c.triage != nil {
+		var kt []string
+		for _, t := range info.Tags {
+			if os.Getenv("VERIF_TRIAGE") == "full" || !(strings.HasPrefix(t, "dtype=") || strings.HasPrefix(t, "rank") || strings.HasPrefix(t, "route=")) {
+				kt = append(kt, t)
+			}
+		}
+		key := v.Kind + " " + fmt.Sprint(kt)
+		c.triage[key]++
+		if _, ok := c.triageEx[key]; !ok {
+			c.triageEx[key] = info.ID + " :: " + truncate(v.Detail, 300)
+		}
+	}
+	if c.printed < c.maxPrint {
 		c.printed++
 		path := c.writeReplay(info, v)
 		fmt.Printf("VIOLATION property=%s replay=%s\n", c.Prop, path)
@@ -322,6 +342,16 @@ func (c *Checker) Finish() int {
 		st := c.kfStats[id]
 		fmt.Printf("KNOWN-FINDING: property=%s %s [%s] (%d cases; e.g. %s)\n", c.Prop, st.entry.What, id, st.failing, truncate(st.example, 200))
 		kfOut = append(kfOut, map[string]any{"id": id, "failing_cases": st.failing, "example": truncate(st.example, 300)})
+	}
+	if c.triage != nil {
+		var keys []string
+		for k := range c.triage {
+			keys = append(keys, k)
+		}
+		sort.Strings(keys)
+		for _, k := range keys {
+			fmt.Printf("TRIAGE %6d  %s\n        e.g. %s\n", c.triage[k], k, c.triageEx[k])
+		}
 	}
 	cov := map[string]any{}
 	for k, v := range c.Extra {
